@@ -65,3 +65,29 @@ def replay_filter(doc):
     if got != bool(exp):
         return True, '%s(%s).test(level=%r, inline_level=%r, try_count=%r) = %r, reference predicate = %r' % (name, {k: v for k, v in vars(f).items()}, rec.level, rec.inline_level, rec.try_count, got, bool(exp))
     return False, 'real function agrees with the reference on the model values'
+
+
+def replay_ftp_parent_listing(doc):
+    """the FTP processor asks the server for a listing of the PARENT directory of a URL (to learn whether it is a file or a directory, and for its Unix
+    permissions) without asking the URL filters about that directory: with --no-parent the directory can lie above the start directory"""
+    import ast, os
+    from wpull.processor.ftp import to_dir_path_url
+    from wpull.url import URLInfo
+    from wpull.urlfilter import ParentFilter, DemuxURLFilter
+    from wpull.pipeline.item import URLRecord
+    repo = os.environ.get('PYVC_REPO', '/repo')
+    src = open(os.path.join(repo, 'wpull/processor/ftp.py')).read()
+    fn = [n for n in ast.walk(ast.parse(src)) if isinstance(n, ast.FunctionDef) and n.name == '_fetch_parent_path'][0]
+    consults = any(isinstance(n, ast.Attribute) and n.attr.startswith('check_') for n in ast.walk(fn))
+    from wpull.urlfilter import RegexFilter
+    item = 'ftp://h.example/private/report.txt'          # given on the command line together with --reject-regex '/private/$'
+    parent = to_dir_path_url(URLInfo.parse(item))
+    rec = URLRecord(); rec.url = parent; rec.root_url = item; rec.parent_url = item; rec.level = 0; rec.inline_level = None
+    flt = RegexFilter(rejected='/private/$')
+    try:
+        v_item = flt.test(URLInfo.parse(item), rec); v_parent = flt.test(URLInfo.parse(parent), rec)
+    except Exception as e:
+        return False, 'could not evaluate the filter: %r' % e
+    if not consults and v_item and not v_parent:
+        return True, "--reject-regex '/private/$' and the URL %s (accepted: %r): _fetch_parent_path sends a LIST for %s, which the filter rejects (%r); the function never asks FetchRule" % (item, v_item, parent, v_parent)
+    return False, 'the parent listing is consulted with the filters (or lies inside the scope)'
